@@ -1,7 +1,7 @@
 #!/bin/sh
 # Run every registered quick (or $1) check and print one line per property.
 tier=${1:-quick}
-cd /verif
+cd "$(dirname "$0")/.."
 for p in $(/venv/bin/python -c "import json;print(' '.join(c['property_id'] for c in json.load(open('MANIFEST.json'))['checks']))"); do
   start=$(date +%s)
   out=$(/venv/bin/python checks/run.py $p --tier $tier 2>&1); rc=$?
